@@ -245,7 +245,7 @@ impl HCtx {
             let res2 = results.clone();
             let prep2 = Prepared {
                 method: prep.method.clone(), uri: prep.uri.clone(), cid_bytes: prep.cid_bytes.clone(), ct_val: prep.ct_val.clone(),
-                chunks: prep.chunks.clone(), broken: prep.broken, http10: prep.http10, op_prefix: String::new(), route_class: String::new(), seg_class: String::new(), cid_class: String::new(),
+                chunks: prep.chunks.clone(), broken: prep.broken, http10: prep.http10, op_prefix: String::new(), route_class: String::new(), seg_class: String::new(), cid_class: String::new(), extra: prep.extra.clone(),
             };
             handles.push(std::thread::spawn(move || {
                 TID.with(|t| t.set(tid));
